@@ -107,3 +107,7 @@ func planClass(p ReadPlan) string {
 	}
 	return c
 }
+
+// isThorough reports the thorough tier, also for "thorough+" (later seeds of a
+// thorough run, which skip the seed-independent enumerated families).
+func isThorough(tier string) bool { return strings.HasPrefix(tier, "thorough") }
